@@ -19,6 +19,8 @@ pub struct Case {
     pub leaders: Vec<usize>,
     /// C16: (follower with the incompatible policy, kind)
     pub mismatch: Option<(usize, &'static str)>,
+    /// run on the multi-thread stress runtime (seed) instead of the paused-clock explorer
+    pub mt: Option<u64>,
 }
 
 fn base_scenario(prog: &Program, leader: usize, out_mask: &[bool], inputs: &[u64], strategy: Strategy, comp_id: u128) -> Scenario {
@@ -76,7 +78,7 @@ pub fn cases_c14(tier: &str, seed: u64) -> Vec<Case> {
                     for inj in injs {
                         let mut sc = base.clone();
                         sc.injections = vec![(When::Step(k), inj.clone())];
-                        v.push(Case { prop: "C14", key: format!("{} L{} step{} p{} {}", prog.name, leader, k, party, inj_name(&inj)), sc, progs: vec![(*prog).clone()], inputs: vec![inputs.clone()], out_masks: vec![mask.clone()], leaders: vec![leader], mismatch: None });
+                        v.push(Case { prop: "C14", key: format!("{} L{} step{} p{} {}", prog.name, leader, k, party, inj_name(&inj)), sc, progs: vec![(*prog).clone()], inputs: vec![inputs.clone()], out_masks: vec![mask.clone()], leaders: vec![leader], mismatch: None, mt: None });
                     }
                 }
             }
@@ -176,7 +178,7 @@ pub fn cases_c15(tier: &str, seed: u64) -> Vec<Case> {
                     for party in 0..n {
                         let mut sc = base.clone();
                         sc.injections = vec![(When::Step(k), Inject::Cancel { comp: 0, party })];
-                        v.push(Case { prop: "C15", key: format!("{} L{} gated={} step{} cancel p{}", prog.name, leader, gate_msgs, k, party), sc, progs: vec![(*prog).clone()], inputs: vec![inputs.clone()], out_masks: vec![mask.clone()], leaders: vec![leader], mismatch: None });
+                        v.push(Case { prop: "C15", key: format!("{} L{} gated={} step{} cancel p{}", prog.name, leader, gate_msgs, k, party), sc, progs: vec![(*prog).clone()], inputs: vec![inputs.clone()], out_masks: vec![mask.clone()], leaders: vec![leader], mismatch: None, mt: None });
                     }
                 }
             }
@@ -200,7 +202,7 @@ pub fn cases_c15(tier: &str, seed: u64) -> Vec<Case> {
                         }
                         let mut sc = base.clone();
                         sc.injections = vec![(When::Step(k), stray.clone()), (When::Step(k + 2), Inject::Cancel { comp: 0, party })];
-                        v.push(Case { prop: "C15", key: format!("{} L{} step{} {} then cancel p{}", prog.name, leader, k, inj_name(&stray), party), sc, progs: vec![prog.clone()], inputs: vec![inputs.clone()], out_masks: vec![mask.clone()], leaders: vec![leader], mismatch: None });
+                        v.push(Case { prop: "C15", key: format!("{} L{} step{} {} then cancel p{}", prog.name, leader, k, inj_name(&stray), party), sc, progs: vec![prog.clone()], inputs: vec![inputs.clone()], out_masks: vec![mask.clone()], leaders: vec![leader], mismatch: None, mt: None });
                     }
                 }
             }
@@ -227,10 +229,26 @@ pub fn cases_c15(tier: &str, seed: u64) -> Vec<Case> {
                             sc.strategy = Strategy::Script(script.clone());
                             sc.fail_rpc = Some((RpcKind::Consts, which));
                             sc.injections = vec![(When::Step(k), Inject::Cancel { comp: 0, party })];
-                            v.push(Case { prop: "C15", key: format!("{} L{} step{} cancel p{} failing-consts#{} script{:?}", prog.name, leader, k, party, which, script), sc, progs: vec![prog.clone()], inputs: vec![inputs.clone()], out_masks: vec![mask.clone()], leaders: vec![leader], mismatch: None });
+                            v.push(Case { prop: "C15", key: format!("{} L{} step{} cancel p{} failing-consts#{} script{:?}", prog.name, leader, k, party, which, script), sc, progs: vec![prog.clone()], inputs: vec![inputs.clone()], out_masks: vec![mask.clone()], leaders: vec![leader], mismatch: None, mt: None });
                         }
                     }
                 }
+            }
+        }
+    }
+    // multi-thread runtime, real sub-millisecond delays: cancel after k * 0.7 ms
+    {
+        let prog = &progs[3];
+        let reps = if thorough { 12 } else { 1 };
+        for r in 0..reps {
+            for k in (0..48usize).step_by(if thorough { 1 } else { 2 }) {
+                let party = (k + r) % 2;
+                let leader = (k / 2 + r) % 2;
+                let mask = vec![true, k % 5 != 0];
+                let inputs = vec![(seed % 50) + k as u64, 200 - k as u64];
+                let mut sc = base_scenario(prog, leader, &mask, &inputs, Strategy::Script(vec![]), 0x15e00 + k as u128);
+                sc.injections = vec![(When::Step(k), Inject::Cancel { comp: 0, party })];
+                v.push(Case { prop: "C15", key: format!("multi-thread {} L{} cancel p{} after ~{}us #{r}", prog.name, leader, party, k * 700), sc, progs: vec![prog.clone()], inputs: vec![inputs], out_masks: vec![mask], leaders: vec![leader], mismatch: None, mt: Some(seed ^ ((k * 131 + r * 7) as u64)) });
             }
         }
     }
@@ -244,7 +262,7 @@ pub fn cases_c15(tier: &str, seed: u64) -> Vec<Case> {
                 let mut sc = base_scenario(&heavy, leader, &mask, &inputs, Strategy::Script(vec![]), 0x15f00 + rep as u128);
                 sc.gate_msgs = false;
                 sc.injections = vec![(When::DuringCompile, Inject::Cancel { comp: 0, party })];
-                v.push(Case { prop: "C15", key: format!("heavy L{leader} during-compile cancel p{party} #{rep}"), sc, progs: vec![heavy.clone()], inputs: vec![inputs], out_masks: vec![mask], leaders: vec![leader], mismatch: None });
+                v.push(Case { prop: "C15", key: format!("heavy L{leader} during-compile cancel p{party} #{rep}"), sc, progs: vec![heavy.clone()], inputs: vec![inputs], out_masks: vec![mask], leaders: vec![leader], mismatch: None, mt: None });
             }
         }
     }
@@ -347,7 +365,7 @@ pub fn cases_c16(tier: &str, seed: u64) -> Vec<Case> {
                             eprintln!("C16 generator: a mismatch program does not type-check ({} {kind})", prog.name);
                             continue;
                         }
-                        v.push(Case { prop: "C16", key: format!("{} L{} mismatch-{} at p{} order{}", prog.name, leader, kind, f, si), sc, progs: vec![(*prog).clone()], inputs: vec![inputs.clone()], out_masks: vec![mask.clone()], leaders: vec![leader], mismatch: Some((f, kind)) });
+                        v.push(Case { prop: "C16", key: format!("{} L{} mismatch-{} at p{} order{}", prog.name, leader, kind, f, si), sc, progs: vec![(*prog).clone()], inputs: vec![inputs.clone()], out_masks: vec![mask.clone()], leaders: vec![leader], mismatch: Some((f, kind)), mt: None });
                     }
                 }
             }
@@ -363,7 +381,7 @@ pub fn cases_c16(tier: &str, seed: u64) -> Vec<Case> {
                         sc.policies[0][f].program = good.program.replace('^', "&").replace("a > b", "b > a");
                         sc.alt_policies = vec![good];
                         sc.injections = vec![(When::Step(k), Inject::AltSchedule { comp: 0, party: f, alt: 0 })];
-                        v.push(Case { prop: "C16", key: format!("{} L{} refused-reschedule at p{} step{}", prog.name, leader, f, k), sc, progs: vec![(*prog).clone()], inputs: vec![inputs.clone()], out_masks: vec![mask.clone()], leaders: vec![leader], mismatch: Some((f, "program-after-refused-reschedule")) });
+                        v.push(Case { prop: "C16", key: format!("{} L{} refused-reschedule at p{} step{}", prog.name, leader, f, k), sc, progs: vec![(*prog).clone()], inputs: vec![inputs.clone()], out_masks: vec![mask.clone()], leaders: vec![leader], mismatch: Some((f, "program-after-refused-reschedule")), mt: None });
                     }
                 }
             }
@@ -374,7 +392,7 @@ pub fn cases_c16(tier: &str, seed: u64) -> Vec<Case> {
                 for st in [Strategy::Script(vec![]), Strategy::Random(seed ^ bad as u64)] {
                     let mut sc = base_scenario(prog, leader, &mask, &inputs, st, 0x16100 + pi as u128);
                     sc.policies[0][bad].program = "pub fn main(a: u8, b: u8) -> u8 { a ^ true }".into();
-                    v.push(Case { prop: "C16", key: format!("{} L{} ill-typed at p{}", prog.name, leader, bad), sc, progs: vec![(*prog).clone()], inputs: vec![inputs.clone()], out_masks: vec![mask.clone()], leaders: vec![leader], mismatch: Some((bad, "ill-typed")) });
+                    v.push(Case { prop: "C16", key: format!("{} L{} ill-typed at p{}", prog.name, leader, bad), sc, progs: vec![(*prog).clone()], inputs: vec![inputs.clone()], out_masks: vec![mask.clone()], leaders: vec![leader], mismatch: Some((bad, "ill-typed")), mt: None });
                 }
             }
         }
@@ -464,7 +482,7 @@ pub fn cases_c17(tier: &str, seed: u64) -> Vec<Case> {
             injections.push((When::Step(rng.random_range(0..30)), Inject::Cancel { comp: rng.random_range(0..batch), party: rng.random_range(0..2) }));
         }
         let sc = Scenario { policies: pols, concurrency, strategy: Strategy::Random(seed ^ (i as u64).wrapping_mul(0x9e3779b97f4a7c15)), gate_msgs: i % 2 == 0, fail_rpc: fail, injections, skip_schedule: vec![], max_steps: 60_000, fail_outputs: i % 7 == 3, alt_policies: vec![] };
-        v.push(Case { prop: "C17", key: format!("batch{batch} conc{concurrency} fail={} cancel={} dest-unreachable={}", fail.map(|(k, _)| format!("{k:?}")).unwrap_or("none".into()), i % 5 == 4, i % 7 == 3), sc, progs: ps, inputs, out_masks: masks, leaders, mismatch: None });
+        v.push(Case { prop: "C17", key: format!("batch{batch} conc{concurrency} fail={} cancel={} dest-unreachable={}", fail.map(|(k, _)| format!("{k:?}")).unwrap_or("none".into()), i % 5 == 4, i % 7 == 3), sc, progs: ps, inputs, out_masks: masks, leaders, mismatch: None, mt: None });
     }
     // the two single-computation shapes named in the property, for every failing RPC kind and output choice
     for kind in [RpcKind::Validate, RpcKind::Run, RpcKind::Consts] {
@@ -476,14 +494,14 @@ pub fn cases_c17(tier: &str, seed: u64) -> Vec<Case> {
                 let mut sc = base_scenario(prog, leader, &mask, &inp, Strategy::Script(vec![]), 0x17f00);
                 sc.concurrency = 1;
                 sc.fail_rpc = Some((kind, 0));
-                v.push(Case { prop: "C17", key: format!("single fail={kind:?} url={url} L{leader}"), sc: sc.clone(), progs: vec![prog.clone()], inputs: vec![inp.clone()], out_masks: vec![mask.clone()], leaders: vec![leader], mismatch: None });
+                v.push(Case { prop: "C17", key: format!("single fail={kind:?} url={url} L{leader}"), sc: sc.clone(), progs: vec![prog.clone()], inputs: vec![inp.clone()], out_masks: vec![mask.clone()], leaders: vec![leader], mismatch: None, mt: None });
                 if url {
                     // double fault: the error notification cannot be delivered either
                     for which in 0..2 {
                         let mut sc2 = sc.clone();
                         sc2.fail_outputs = true;
                         sc2.fail_rpc = Some((kind, which));
-                        v.push(Case { prop: "C17", key: format!("single fail={kind:?}#{which} dest-unreachable L{leader}"), sc: sc2, progs: vec![prog.clone()], inputs: vec![inp.clone()], out_masks: vec![mask.clone()], leaders: vec![leader], mismatch: None });
+                        v.push(Case { prop: "C17", key: format!("single fail={kind:?}#{which} dest-unreachable L{leader}"), sc: sc2, progs: vec![prog.clone()], inputs: vec![inp.clone()], out_masks: vec![mask.clone()], leaders: vec![leader], mismatch: None, mt: None });
                     }
                 }
             }
@@ -564,7 +582,10 @@ pub fn cases(prop: &str, tier: &str, seed: u64) -> Vec<Case> {
 }
 
 pub fn run_case(c: &Case) -> Value {
-    let rec = server::explore(&c.sc);
+    let rec = match c.mt {
+        Some(seed) => server::explore_mt(&c.sc, seed),
+        None => server::explore(&c.sc),
+    };
     let (viol, class) = match c.prop {
         "C14" => (judge_c14(c, &rec), String::new()),
         "C15" => judge_c15(c, &rec),
